@@ -175,3 +175,40 @@ Theorem C19_rot_oracle_sound : forall t0 usedir script ops os,
   rot_oracle t0 usedir script ops os = true <-> rot_spec t0 usedir script ops os.
 Proof. exact rot_oracle_sound. Qed.
 Print Assumptions C19_rot_oracle_sound.
+
+(* Readers during rotation. GetX509SVID / Ready calls may be made at any time and their steps
+   interleave freely with the renewals' events (a renewed SVID arriving, Run announcing itself as
+   a writer, waiting for the readers inside to leave, storing, unlocking) - all of that is part of
+   "every schedule" above. Spelled out for a renewal: on the fixed code, once no thread can move,
+   every call has returned, Run is back in its loop and the newest fetched SVID is the one served;
+   no renewal is ever left waiting for the lock behind a reader, no reader behind a renewal. *)
+Theorem C19_renewal_published : forall es s,
+  Ready.run Fixed Ready.init es = Some s -> Ready.stuck Fixed s -> Ready.s_init s <> None ->
+  forallb Ready.returned (Ready.s_cl s) = true /\
+  (Ready.s_run s = Ready.RRot \/ Ready.s_run s = Ready.RRetErr) /\
+  Ready.s_cur s = hd_error (Ready.s_fetched s).
+Proof. exact Proofs_Ready.renewal_published. Qed.
+Print Assumptions C19_renewal_published.
+
+(* ... and for a read (either variant): the step in which a reader holding the read lock reads the
+   field returns the newest fetched SVID, or the one before it while the newest has been fetched
+   but Run is still acquiring the write lock to store it. *)
+Theorem C19_read_is_latest : forall v es s i c s',
+  Ready.run v Ready.init es = Some s -> nth_error (Ready.s_cl s) i = Some c ->
+  Ready.c_pc c = Ready.GHold -> Ready.step v s (Ready.EStep (S i)) = Some s' ->
+  (exists c', nth_error (Ready.s_cl s') i = Some c' /\ Ready.c_pc c' = Ready.GRet (Ready.s_cur s)) /\
+  (Ready.s_cur s = hd_error (Ready.s_fetched s) \/
+   exists x rest, Ready.s_fetched s = x :: rest /\ Ready.s_cur s = hd_error rest /\
+                  (Ready.s_run s = Ready.RWant x \/ Ready.s_run s = Ready.RPend x)).
+Proof. exact Proofs_Ready.read_is_latest. Qed.
+Print Assumptions C19_read_is_latest.
+
+(* The oracle for readers racing with renewals decides its spec: all scripted issuer requests and
+   the next one were made, every Ready returned nil, every run of equal results of every reader
+   is a fetched SVID with its own key, not older than what had certainly been stored when the
+   call began, not newer than what had been requested when it returned, and a reader never sees
+   an older SVID after a newer one. *)
+Theorem C19_conc_oracle_sound : forall script nreq ready_ok readers,
+  conc_oracle script nreq ready_ok readers = true <-> conc_spec script nreq ready_ok readers.
+Proof. exact conc_oracle_sound. Qed.
+Print Assumptions C19_conc_oracle_sound.
